@@ -26,8 +26,12 @@ type Mut struct {
 // extractors with zip fixtures).
 var mutOps = []string{
 	"trunc", "delline", "dupline", "swapline", "deltok", "duptok", "swaptok", "scalar", "splice",
-	"flip", "setbyte", "insert", "crlf", "bom", "dropnl", "nest", "repeat", "delrange",
+	"flip", "setbyte", "insert", "crlf", "bom", "dropnl", "nest", "repeat", "delrange", "strprefix", "strsuffix", "strempty",
 }
+
+// hostileAffixes are put at the start / end of the content of a quoted string or bare value.
+var hostileAffixes = []string{"npm:", "file:", "git+", "@", "../", "-r ", "workspace:", "link:", "https://", "github:", "/", ":", "v", "=", "#", "\\", " ", "a@", "@a/", "+", "-", ".", "!", "~", "^", "*", "%", "[", "{", "<", "&"}
+
 
 var zipOps = []string{"zip", "zipname", "zipdup", "zipnest", "zipdel"}
 
@@ -241,6 +245,23 @@ func applyMut(b []byte, m Mut) []byte {
 			return b
 		}
 		return replaceSpan(b, ss[mod(m.A, len(ss))], []byte(expandScalar(m.S)))
+	case "strprefix", "strsuffix", "strempty":
+		ss := scalarSpans(b)
+		if len(ss) == 0 {
+			return b
+		}
+		sp := ss[mod(m.A, len(ss))]
+		lo, hi := sp[0], sp[1]
+		if (b[lo] == '"' || b[lo] == '\'') && hi-lo >= 2 && b[hi-1] == b[lo] {
+			lo, hi = lo+1, hi-1 // inside the quotes
+		}
+		switch m.Op {
+		case "strprefix":
+			return replaceSpan(b, [2]int{lo, lo}, []byte(m.S))
+		case "strsuffix":
+			return replaceSpan(b, [2]int{hi, hi}, []byte(m.S))
+		}
+		return replaceSpan(b, [2]int{lo, hi}, nil)
 	case "splice":
 		other, err := readBase(m.S)
 		if err != nil {
